@@ -40,7 +40,7 @@ def one(sid):
         shutil.rmtree(evd, ignore_errors=True)
 
 
-seeds = args or sorted(s for s in os.listdir(os.path.join(root, "seeded")) if os.path.exists(os.path.join(root, "seeded", s, "meta.json")))
+seeds = args or sorted(s for s in os.listdir(os.path.join(root, "seeded")) if not s.startswith("_") and os.path.exists(os.path.join(root, "seeded", s, "meta.json")))
 bad = 0
 with cf.ThreadPoolExecutor(jobs) as ex:
     for sid, verdict, out in ex.map(one, seeds):
